@@ -16,7 +16,7 @@ from . import common, gen
 from .common import fmt_nd, close
 
 PROP = 'C08'
-GENERATED = ['Proj']
+GENERATED = ['Proj', 'Fold']     # Fold: C08_fold_generated ties the model's fold/unfold to the programs regenerated from the source
 NEEDS_BUILD = False
 NEEDS_DRIVER = True
 DRIVER_MODULES = ['Projection']
@@ -529,6 +529,106 @@ def check_refusals(chk, ctx, rng, count):
             if (out == 'err up') == raised: chk.k_ok('project_one_axis:refusal')
             else: chk.k_bad('project_one_axis:refusal', inp, raised, out[:60], None)
 
+# --------------------------------------------------------------------------- whole-array clauses: raw totals, reversal, fold after projection
+def parse_rat(out):
+    """'ok a/b' -> float"""
+    t = out.split(' ')[1]
+    if '/' in t:
+        a, b = t.split('/')
+        return int(a) / int(b)
+    return float(int(t))
+
+def reversed_spectrum(dadi, fs):
+    """`Numerics.reverse_array` on data and mask of `fs`: a Spectrum of the same folding status, no corner masking added"""
+    rd = np.array(dadi.Numerics.reverse_array(np.asarray(fs.data, dtype=float)))
+    rm = np.array(dadi.Numerics.reverse_array(np.array(np.ma.getmaskarray(fs))))
+    return dadi.Spectrum(rd, mask=rm, mask_corners=False, data_folded=bool(fs.folded))
+
+def check_array_case(chk, ctx, c):
+    """clauses that are theorems about the whole array of the model (C08_total_array, C08_mirror_array,
+    C08_fold_commute, C08_axes_commute_array), evaluated on the real code (L3) and model vs code (K: `mirror`, `total`, `ptotal`)"""
+    dadi = ctx['dadi']
+    inp = dict(small(c), kind='array')
+    S = dadi.Spectrum(np.array(c['data'], dtype=float), mask=np.array(c['mask'], dtype=bool), mask_corners=bool(c['mask_corners']))
+    ns = list(c['ns'])
+    sdata = np.array(S.data, dtype=float); smask = np.array(np.ma.getmaskarray(S))
+    key = ('array', c['d'], c.get('mask_kind'), c.get('data_kind'))
+    try:
+        R = reversed_spectrum(dadi, S)
+        P = S.project(ns)
+        Q = R.project(ns)
+        RP = reversed_spectrum(dadi, P)
+        PF = P.fold(); QF = Q.fold()
+        FP = S.fold().project(ns)
+    except Exception as e:
+        chk.l3(key)
+        chk.fail('project:array:raises:%s' % type(e).__name__, 'reverse/project/fold chain raises %r' % (e,), inp)
+        return
+    chk.l3(key)
+    # reverse_array itself, against its definition (every axis reversed)
+    idx = tuple(slice(None, None, -1) for _ in sdata.shape)
+    if not (np.array_equal(np.asarray(R.data), sdata[idx]) and np.array_equal(np.ma.getmaskarray(R), smask[idx])):
+        chk.fail('reverse_array:value', 'Numerics.reverse_array does not reverse every axis of a %d-D array' % c['d'], inp)
+    # projection commutes with reversing every axis (data and mask)
+    ok, what = spec_close(Q, RP)
+    if not ok:
+        chk.fail('project:mirror', 'reverse_array(S).project(%r) differs from reverse_array(S.project(%r)): %s' % (ns, ns, what), inp)
+    # fold(project(S)) = fold(project(reverse(S)))
+    ok, what = spec_close(QF, PF)
+    if not ok:
+        chk.fail('project:fold-mirror', 'fold(project(reverse_array(S))) differs from fold(project(S)): %s' % what, inp)
+    # fold(S).project(ns) = fold(S.project(ns)): same mask, same data at unmasked entries, folded flag
+    ok, what = spec_close(FP, PF)
+    if not ok or not bool(FP.folded):
+        chk.fail('project:fold-commute', 'S.fold().project(%r) differs from S.project(%r).fold(): %s' % (ns, ns, what if not ok else 'folded flag'), inp)
+    # raw totals (observable when nothing is masked): conserved by project, by fold and by the projection of the folded spectrum
+    clean = not smask.any()
+    if clean:
+        t0 = float(sdata.sum()); sc = float(np.sum(np.abs(sdata))) + 1e-300
+        for name, arr in (('project', P), ('fold', S.fold()), ('fold().project', FP), ('project().fold', PF)):
+            t1 = float(np.asarray(arr.data, dtype=float).sum())
+            chk.l3(('raw-total', name, c['d']))
+            if not abs(t1 - t0) <= 1e-9 * sc:
+                chk.fail('project:raw-total:%s' % name, 'sum of the data array is %r before and %r after %s to %r' % (t0, t1, name, ns), inp)
+    # ---- K
+    if have_driver(ctx):
+        drv = ctx['driver']
+        out = drv.ask('mirror 0 %s %s' % (fmt_nd(sdata), fmt_nd(smask.astype(int))))
+        if not out.startswith('ok '):
+            chk.k_bad('mirror', inp, 'reverse_array', out[:60], None)
+        else:
+            md, mm, mf = parse_spec(out)
+            if md.shape == sdata.shape and np.array_equal(mm, np.ma.getmaskarray(R)) and close(np.asarray(R.data), md, rtol=RTOL)[0] and not mf:
+                chk.k_ok('mirror')
+            else:
+                chk.k_bad('mirror', inp, dict(data=np.asarray(R.data), mask=np.ma.getmaskarray(R).astype(int)), out[:200], None)
+        out = drv.ask('total 0 %s %s' % (fmt_nd(sdata), fmt_nd(smask.astype(int))))
+        if out.startswith('ok ') and abs(parse_rat(out) - float(sdata.sum())) <= 1e-9 * (float(np.sum(np.abs(sdata))) + 1e-300):
+            chk.k_ok('total')
+        else:
+            chk.k_bad('total', inp, float(sdata.sum()), out[:60], None)
+        if clean:
+            for folded, impl in ((False, P), (True, FP)):
+                src = S.fold() if folded else S
+                out = drv.ask('ptotal %s %s %s %s' % ('1' if folded else '0', ','.join(str(int(m)) for m in ns),
+                                                     fmt_nd(np.asarray(src.data, dtype=float)), fmt_nd(np.array(np.ma.getmaskarray(src)).astype(int))))
+                t1 = float(np.asarray(impl.data, dtype=float).sum())
+                op = 'ptotal:%s' % ('folded' if folded else 'unfolded')
+                if out.startswith('ok ') and abs(parse_rat(out) - t1) <= 1e-9 * (float(np.sum(np.abs(sdata))) + 1e-300):
+                    chk.k_ok(op)
+                else:
+                    chk.k_bad(op, inp, t1, out[:60], None)
+    chk.stat('array:dim:%d' % c['d']); chk.stat('array:clean:%s' % clean)
+
+def l3_arrays(chk, ctx, rng, count):
+    for it in range(count):
+        mk = [None, 'none', 'none', 'single', 'sparse'][it % 5]
+        c = gen_case(rng, ctx['tier'], d=1 + it % 4, folded=False, mask_kind=mk)
+        if mk == 'none':
+            c['mask_corners'] = False
+        check_array_case(chk, ctx, c)
+
+
 # --------------------------------------------------------------------------- metamorphic L3 (property clauses)
 def spec_close(a, b, what_mask=True):
     am = np.array(np.ma.getmaskarray(a)); bm = np.array(np.ma.getmaskarray(b))
@@ -1017,8 +1117,8 @@ def run(chk, ctx):
     chk.unproved = [
         'round-off of gammaln/exp and of the float accumulation: agreement of the float code with the exact rational model is numerical (1e-9 of the array scale; observed <= 3e-13 up to n = 200)',
         'the numpy slice/broadcast bookkeeping of _project_one_axis in d dimensions is tied to the pointwise model (C08_axis_entry) by correspondence and by the statement-list check C08_wiring, not by translation',
-        'fold/unfold (used by project on folded spectra) are modelled in Model/Spectrum.lean and tied by correspondence only; their algebra is property C09; C08 proves the axis-reversal symmetry (C08_mirror) and the code path (C08_folded)',
-        'whole-array total conservation / commutation follow line by line from C08_total / C08_axes_commute with C08_axis_entry; the sum over all lines is not stated as a separate Lean theorem',
+        'fold/unfold of the model (Model/Spectrum.lean) are proved equal, entry by entry, to the programs regenerated from Spectrum.fold/unfold by C09\'s translator (C08_fold_generated) and tied by correspondence; reverse_array (Spec.mirror) and the raw total (Spec.total) are tied by correspondence only',
+        'the array theorems (C08_total_array, C08_compose_array, C08_axes_commute_array, C08_mask_array, C08_mirror_array, C08_fold_commute) assume no axis of length 0; mask spread of a *folded* source is stated through fold(project(unfold)) (C08_folded + C08_mask_array on the unfolded spectrum), not as a closed formula',
         'dictionary semantics of the cache (hit returns the stored row) is exercised (cold/warm), its transparency theorem is C20']
     sweep_weights(chk, ctx, nmax, rng)
     sample_weights(chk, ctx, rng, 150 if tier == 'quick' else 1500, nmax + 1, 200)
@@ -1053,6 +1153,7 @@ def run(chk, ctx):
     check_refusals(chk, ctx, rng, 36 if tier == 'quick' else 240)
     l3_compose_and_order(chk, ctx, rng, 100 if tier == 'quick' else 600)
     l3_neutral(chk, ctx, rng, 42 if tier == 'quick' else 280)
+    l3_arrays(chk, ctx, rng, 60 if tier == 'quick' else 400)
     cache_soundness(chk, ctx, 'refusals, two-stage / axis-order projections, neutral spectra')
     l3_lowpass_history(chk, ctx, rng, 24 if tier == 'quick' else 120)     # before any plain F = 0 call touches these sizes
     l3_lowpass(chk, ctx, rng, 30 if tier == 'quick' else 200)
@@ -1102,6 +1203,9 @@ def replay(chk, ctx, data):
             check_lowpass_f0(chk, ctx, LP, int(inp['n']), int(inp['m']), done)
         else:
             run(chk, ctx)
+    elif kind == 'array':
+        c = dict(inp); c['data'] = arr(inp['data']); c['mask'] = arr(inp['mask'], int).astype(bool)
+        check_array_case(chk, ctx, c)
     elif kind in ('project', 'compose', 'attrs', 'refusal', 'refusal-one-axis'):
         c = dict(inp); c['data'] = arr(inp['data']); c['mask'] = arr(inp['mask'], int).astype(bool); c['kind'] = 'project'
         if kind == 'project' and inp.get('axis') is not None:
